@@ -230,34 +230,48 @@ Proof. exact (@unstack_refines_regenerated). Qed.
 Print Assumptions C20_unstack_refines.
 
 (* ===================================================================== pivot *)
-(* pivot_cells: for functions with f [v] = v the code's shortcuts are invisible *)
+(* pivot_cells.  bypass / raw are the two shortcuts of the code (a group of one row never reaches func; a column group
+   with unique index labels is taken raw): with neither, M = S for every function; with either, for f [v] = v *)
 Theorem C20_pivot_cell_refines : forall (I C A F : Type) (ieqb : I -> I -> bool) (ceqb : C -> C -> bool) (apply : F -> list A -> A),
   (forall a b, ieqb a b = true <-> a = b) ->
-  forall fill (rows : list (prow I C A)) i c k fn, singleton_idem apply fn ->
-  M_pivot_cell ieqb ceqb apply fill rows i c k fn = S_pivot_cell ieqb ceqb apply fill rows i c k fn.
+  forall bypass raw fill (rows : list (prow I C A)) i c k fn, shortcut_guard apply bypass raw fn ->
+  M_pivot_cell ieqb ceqb apply bypass raw fill rows i c k fn = S_pivot_cell ieqb ceqb apply fill rows i c k fn.
 Proof. exact (@pivot_cell_refines). Qed.
 Print Assumptions C20_pivot_cell_refines.
 
 Theorem C20_pivot_refines : forall (I C A F : Type) (ieqb : I -> I -> bool) (ceqb : C -> C -> bool)
   (isort : list I -> list I) (csort : list C -> list C) (apply : F -> list A -> A),
   (forall a b, ieqb a b = true <-> a = b) ->
-  forall fill nd funcs (rows : list (prow I C A)),
-  (forall fn, In fn funcs -> singleton_idem apply fn) ->
-  M_pivot ieqb ceqb isort csort apply fill nd funcs rows =
+  forall bypass raw fill nd funcs (rows : list (prow I C A)),
+  (forall fn, In fn funcs -> shortcut_guard apply bypass raw fn) ->
+  M_pivot ieqb ceqb isort csort apply bypass raw fill nd funcs rows =
   mk_sframe (isort (index_keys ieqb rows)) (pivot_columns ceqb csort rows nd funcs)
     (tab (isort (index_keys ieqb rows)) (pivot_columns ceqb csort rows nd funcs)
          (fun i ckf => S_pivot_cell ieqb ceqb apply fill rows i (fst ckf) (fst (snd ckf)) (snd (snd ckf)))).
 Proof. exact (@pivot_refines). Qed.
 Print Assumptions C20_pivot_refines.
 
+(* over the two decisions as REGENERATED from pivot.py / frame.py on every run: what the guard is for the code as it stands *)
+Theorem C20_pivot_refines_regenerated : forall (I C A F : Type) (ieqb : I -> I -> bool) (ceqb : C -> C -> bool)
+  (isort : list I -> list I) (csort : list C -> list C) (apply : F -> list A -> A),
+  (forall a b, ieqb a b = true <-> a = b) ->
+  forall fill nd funcs (rows : list (prow I C A)),
+  (forall fn, In fn funcs -> shortcut_guard apply gen_pivot_single_row_bypasses_func gen_pivot_unique_group_takes_raw fn) ->
+  M_pivot ieqb ceqb isort csort apply gen_pivot_single_row_bypasses_func gen_pivot_unique_group_takes_raw fill nd funcs rows =
+  mk_sframe (isort (index_keys ieqb rows)) (pivot_columns ceqb csort rows nd funcs)
+    (tab (isort (index_keys ieqb rows)) (pivot_columns ceqb csort rows nd funcs)
+         (fun i ckf => S_pivot_cell ieqb ceqb apply fill rows i (fst ckf) (fst (snd ckf)) (snd (snd ckf)))).
+Proof. intros I C A F ieqb ceqb isort csort apply H. exact (@pivot_refines I C A F ieqb ceqb isort csort apply H gen_pivot_single_row_bypasses_func gen_pivot_unique_group_takes_raw). Qed.
+Print Assumptions C20_pivot_refines_regenerated.
+
 (* pivot_shape: one row per distinct index-field value, one column per distinct column-field value
    x data field x function *)
 Theorem C20_pivot_shape : forall (I C A F : Type) (ieqb : I -> I -> bool) (ceqb : C -> C -> bool)
   (isort : list I -> list I) (csort : list C -> list C) (apply : F -> list A -> A),
   (forall a b, ieqb a b = true <-> a = b) -> (forall a b, ceqb a b = true <-> a = b) ->
-  forall fill nd funcs (rows : list (prow I C A)),
+  forall bypass raw fill nd funcs (rows : list (prow I C A)),
   (forall l, Permutation (isort l) l) -> (forall l, Permutation (csort l) l) ->
-  let m := M_pivot ieqb ceqb isort csort apply fill nd funcs rows in
+  let m := M_pivot ieqb ceqb isort csort apply bypass raw fill nd funcs rows in
   NoDup (sf_rows m) /\ (forall i, In i (sf_rows m) <-> exists r, In r rows /\ p_i r = i) /\
   (NoDup funcs -> NoDup (sf_cols m)) /\
   (forall c k fn, In (c, (k, fn)) (sf_cols m) <-> (exists r, In r rows /\ p_c r = c) /\ (k < nd)%nat /\ In fn funcs).
